@@ -488,6 +488,14 @@ func TestC19_Hostile(t *testing.T) {
 				p.HasTS, p.TS = true, int64(rapid.Uint64Range(1, 1<<40).Draw(t, "probeTS"))
 				p.RawName = "OCRA-1:HOTP-SHA256-8:QN10"
 				p.In.Q = rapid.SliceOfN(rapid.Byte(), 10, 20).Draw(t, "probeQ")
+				if p.Ep == "ocra-gen" && rapid.Bool().Draw(t, "probeStructured") {
+					// a structured suite, different from probe to probe: the service must not depend on how many
+					// distinct configurations it has seen
+					p.RawName = ""
+					p.Cfg = drawUsableCfg(t)
+					p.HashStr = []string{"SHA1", "SHA256", "SHA512"}[p.Cfg.Hash]
+					p.In = drawAdmissible(t, p.Cfg)
+				}
 				p.Fresh = rapid.Bool().Draw(t, "probeFresh")
 				c.Reqs = append(c.Reqs, hostileReq{Probe: true, ProbeReq: p})
 				continue
